@@ -36,7 +36,16 @@ pub struct ScriptProc {
     /// issue each row grouped by kind (sends, local sends, timer operations): the order in which the Python
     /// bridge relays the actions of a handler (C18)
     pub grouped: bool,
+    /// numeric name of the process when the harness wants the API calls of its handlers logged (SIM scenarios)
+    pub me: Option<u64>,
     pub st: ScriptState,
+}
+
+thread_local! {
+    /// what the handlers asked the framework to do, in call order: "XINV p" per handler invocation, then one
+    /// "XCALL p <op> ..." per timer API call.  Independent of Context: the C07 monitor compares what was requested
+    /// with what the trace shows happened.
+    pub static CALLS: std::cell::RefCell<Vec<String>> = std::cell::RefCell::new(Vec::new());
 }
 
 pub fn act_of(t: &mut Toks) -> Act {
@@ -70,11 +79,15 @@ impl ScriptProc {
             ndraws,
             stateless: flags & 2 != 0,
             grouped: flags & 4 != 0,
+            me: None,
             st: ScriptState::default(),
         }
     }
 
     fn handle(&mut self, key: Vec<u64>, ctx: &mut Context) {
+        if let Some(p) = self.me {
+            CALLS.with(|c| c.borrow_mut().push(format!("XINV {}", p)));
+        }
         let mut draws = Vec::new();
         for _ in 0..self.ndraws {
             draws.push(ctx.rand().to_bits());
@@ -105,13 +118,21 @@ impl ScriptProc {
                     Act::Send { dst, msg } => ctx.send(msg, pname(dst)),
                     Act::Local { msg } => ctx.send_local(msg),
                     Act::Timer { name, delay, once } => {
+                        if let Some(p) = self.me {
+                            CALLS.with(|c| c.borrow_mut().push(format!("XCALL {} {} {} {}", p, if once { "SETONCE" } else { "SET" }, name, delay.to_bits())));
+                        }
                         if once {
                             ctx.set_timer_once(&tname(name), delay)
                         } else {
                             ctx.set_timer(&tname(name), delay)
                         }
                     }
-                    Act::Cancel { name } => ctx.cancel_timer(&tname(name)),
+                    Act::Cancel { name } => {
+                        if let Some(p) = self.me {
+                            CALLS.with(|c| c.borrow_mut().push(format!("XCALL {} CANCEL {}", p, name)));
+                        }
+                        ctx.cancel_timer(&tname(name))
+                    }
                 }
             }
         }
